@@ -98,7 +98,8 @@ static std::string const prefix="sc";
 struct adapter : public session_interface_cookie_adapter {
 	std::string presented;
 	std::set<std::string> names;
-	std::vector<set_cookie_call> out;
+	std::vector<set_cookie_call> *shared;
+	adapter() : shared(0) {}
 	void set_cookie(http::cookie const &c)
 	{
 		set_cookie_call s;
@@ -114,7 +115,7 @@ struct adapter : public session_interface_cookie_adapter {
 		}
 		else if(c.expires_defined()) s.age="exp";
 		else s.age="ses";
-		out.push_back(s);
+		shared->push_back(s);
 	}
 	std::string get_session_cookie(std::string const &) { return presented; }
 	std::set<std::string> get_cookie_names() { return names; }
@@ -125,8 +126,10 @@ static std::unique_ptr<session_pool> pool;
 static logging_factory *factory=0;	// owned by the pool
 static std::string kind;
 // network storage: session_tcp_storage -> in-process tcp_cache_service -> session_memory_storage
-static std::unique_ptr<cppcms::impl::tcp_cache_service> tcp_svc;
-static booster::shared_ptr<sessions::session_storage_factory> tcp_backend;
+// (network2 / network3: that many nodes, each with its own memory storage; session.server.ips/ports list them all)
+static std::vector<std::unique_ptr<cppcms::impl::tcp_cache_service> > tcp_svcs;
+static std::vector<booster::shared_ptr<sessions::session_storage_factory> > tcp_backends;
+static bool is_network() { return kind.compare(0,7,"network")==0; }
 static std::string files_dir;
 static std::string base_dir=".";
 static int history_no=0;
@@ -223,7 +226,7 @@ static std::string store_listing()
 {
 	std::vector<std::string> rows;
 	std::set<std::string> keys;
-	if(kind=="memory" || kind=="network") keys=saved_keys;
+	if(kind=="memory" || is_network()) keys=saved_keys;
 	else {
 		DIR *dir=opendir(files_dir.c_str());
 		if(dir) {
@@ -233,12 +236,23 @@ static std::string store_listing()
 	}
 	time_t keep=virtual_now;
 	virtual_now=PROBE_TIME;
+	// every node is asked directly (not over tcp); with more than one node only records whose deadline has not
+	// passed are listed: each node's memory storage collects expired records on its own schedule
+	std::vector<booster::shared_ptr<sessions::session_storage> > nodes;
+	if(is_network()) for(size_t i=0;i<tcp_backends.size();i++) nodes.push_back(tcp_backends[i]->get());
+	else nodes.push_back(factory->inner);
 	for(std::set<std::string>::const_iterator p=keys.begin();p!=keys.end();++p) {
-		time_t to=0; std::string data;
-		bool ok=false;
-		try { ok=factory->inner->load(*p,to,data); } catch(...) { ok=false; }
-		if(ok) rows.push_back(canon_key(*p)+"@"+std::to_string((long long)to)+"="+adler_abbr(data));
-		else if(kind=="files") rows.push_back(canon_key(*p)+"@?");
+		bool any=false;
+		for(size_t n=0;n<nodes.size();n++) {
+			time_t to=0; std::string data;
+			bool ok=false;
+			try { ok=nodes[n]->load(*p,to,data); } catch(...) { ok=false; }
+			if(!ok) continue;
+			any=true;
+			if(nodes.size()>1 && to<keep) continue;
+			rows.push_back(canon_key(*p)+"@"+std::to_string((long long)to)+"="+adler_abbr(data));
+		}
+		if(!any && kind=="files") rows.push_back(canon_key(*p)+"@?");
 	}
 	virtual_now=keep;
 	std::sort(rows.begin(),rows.end());
@@ -249,7 +263,7 @@ static std::string do_new(std::vector<std::string> const &w)
 {
 	if(w.size()!=6) return "bad-op";
 	pool.reset(); factory=0;
-	tcp_svc.reset(); tcp_backend.reset();
+	tcp_svcs.clear(); tcp_backends.clear();
 	if(!files_dir.empty()) { rm_dir(files_dir); files_dir.clear(); }
 	jars.clear(); issued.clear(); mentioned.clear(); calls.clear(); saved_keys.clear();
 	std::string loc=w[1]; kind=w[2];
@@ -274,19 +288,25 @@ static std::string do_new(std::vector<std::string> const &w)
 			// arguments of session_pool::init for a pool without a service: (dir, hw+1, 2, true)
 			real=new sessions::session_file_storage_factory(files_dir,5,2,true);
 		}
-		else if(kind=="network") {
-			tcp_backend.reset(new sessions::session_memory_storage_factory());
-			int port=0;
-			for(int attempt=0;;attempt++) {
-				port=free_port();
-				try {
-					tcp_svc.reset(new cppcms::impl::tcp_cache_service(booster::intrusive_ptr<cppcms::impl::base_cache>(),tcp_backend,1,"127.0.0.1",port));
-					break;
+		else if(is_network()) {
+			size_t n = kind=="network" ? 1 : size_t(atoi(kind.c_str()+7));
+			if(n<1||n>8) return "bad-op";
+			std::vector<std::string> ips; std::vector<int> ports;
+			for(size_t i=0;i<n;i++) {
+				tcp_backends.push_back(booster::shared_ptr<sessions::session_storage_factory>(new sessions::session_memory_storage_factory()));
+				int port=0;
+				for(int attempt=0;;attempt++) {
+					port=free_port();
+					try {
+						tcp_svcs.push_back(std::unique_ptr<cppcms::impl::tcp_cache_service>(
+							new cppcms::impl::tcp_cache_service(booster::intrusive_ptr<cppcms::impl::base_cache>(),tcp_backends.back(),1,"127.0.0.1",port)));
+						break;
+					}
+					catch(std::exception const &) { if(attempt>50) throw; }
 				}
-				catch(std::exception const &) { if(attempt>50) throw; }
+				ips.push_back("127.0.0.1"); ports.push_back(port);
 			}
-			std::vector<std::string> ips(1,"127.0.0.1"); std::vector<int> ports(1,port);
-			factory=new logging_factory(new sessions::tcp_factory(ips,ports),tcp_backend->get());
+			factory=new logging_factory(new sessions::tcp_factory(ips,ports),tcp_backends[0]->get());
 		}
 		else return "bad-op";
 		if(!factory) factory=new logging_factory(real);
@@ -316,68 +336,105 @@ static bool resolve_cookie(int b,std::string const &spec,std::string &out)
 	return false;
 }
 
+struct op { std::string name,k,v; long n; };
+
+static bool parse_ops(std::vector<std::string> const &w,size_t from,size_t to,std::vector<op> &ops)
+{
+	for(size_t i=from;i<to;i++) {
+		std::vector<std::string> p=split(w[i],':');
+		op o; o.name=p[0]; o.n=0;
+		if(o.name=="set" && p.size()==3) { if(!vh::unhex(p[1],o.k)||!parse_val(p[2],o.v)) return false; mentioned.insert(o.k); }
+		else if((o.name=="erase"||o.name=="expose"||o.name=="hide") && p.size()==2) { if(!vh::unhex(p[1],o.k)) return false; mentioned.insert(o.k); }
+		else if((o.name=="age"||o.name=="how"||o.name=="srv") && p.size()==2) o.n=strtol(p[1].c_str(),0,10);
+		else if((o.name=="clear"||o.name=="defage"||o.name=="defhow"||o.name=="reset") && p.size()==1) ;
+		else return false;
+		ops.push_back(o);
+	}
+	return true;
+}
+
+static std::string read_state(session_interface &s)
+{
+	std::set<std::string> keys=s.key_set();
+	keys.insert(mentioned.begin(),mentioned.end());
+	keys.insert("_t"); keys.insert("_h"); keys.insert("_s");
+	std::vector<std::string> ents;
+	for(std::set<std::string>::const_iterator k=keys.begin();k!=keys.end();++k) {
+		if(!s.is_set(*k)) continue;
+		ents.push_back(vh::hex(*k)+"="+adler_abbr(s.get(*k))+":"+(s.is_exposed(*k)?"1":"0"));
+	}
+	return std::to_string(s.age())+","+std::to_string(s.expiration())+","+(s.on_server()?"1":"0")+","+join(ents);
+}
+
+static void apply_ops(session_interface &s,std::vector<op> const &ops)
+{
+	for(size_t i=0;i<ops.size();i++) {
+		op const &o=ops[i];
+		if(o.name=="set") s.set(o.k,o.v);
+		else if(o.name=="erase") s.erase(o.k);
+		else if(o.name=="clear") s.clear();
+		else if(o.name=="expose") s.expose(o.k);
+		else if(o.name=="hide") s.hide(o.k);
+		else if(o.name=="age") s.age(int(o.n));
+		else if(o.name=="defage") s.default_age();
+		else if(o.name=="how") s.expiration(int(o.n));
+		else if(o.name=="defhow") s.default_expiration();
+		else if(o.name=="srv") s.on_server(o.n!=0);
+		else if(o.name=="reset") s.reset_session();
+	}
+}
+
+// req  <b> <now> <cookie> <op>*                         one object: load, mutate, save
+// req2 <b> <now> <cookie1> <op>* / <cookie2> <op>*      one object: load with cookie1, mutate, then
+//        set_cookie_adapter_and_reload() with an adapter presenting cookie2, mutate, save
 static std::string do_req(std::vector<std::string> const &w)
 {
+	bool two = w[0]=="req2";
 	if(w.size()<4 || !pool.get()) return "bad-op";
 	int b=atoi(w[1].c_str());
 	virtual_now=strtoll(w[2].c_str(),0,10);
-	std::string presented;
+	size_t slash=w.size();
+	if(two) {
+		slash=std::find(w.begin(),w.end(),"/")-w.begin();
+		if(slash+1>=w.size()) return "bad-op";
+	}
+	std::string presented,presented2;
 	if(!resolve_cookie(b,w[3],presented)) return "bad-op";
+	if(two && !resolve_cookie(b,w[slash+1],presented2)) return "bad-op";
+	std::vector<op> ops,ops2;
+	if(!parse_ops(w,4,slash,ops)) return "bad-op";
+	if(two && !parse_ops(w,slash+2,w.size(),ops2)) return "bad-op";
 	jar &j=jars[b];
 	if(w[3]!="jar") j.cookie=presented;
-	// parse the operations first (bad lines must not touch the world)
-	struct op { std::string name,k,v; long n; };
-	std::vector<op> ops;
-	for(size_t i=4;i<w.size();i++) {
-		std::vector<std::string> p=split(w[i],':');
-		op o; o.name=p[0]; o.n=0;
-		if(o.name=="set" && p.size()==3) { if(!vh::unhex(p[1],o.k)||!parse_val(p[2],o.v)) return "bad-op"; mentioned.insert(o.k); }
-		else if((o.name=="erase"||o.name=="expose"||o.name=="hide") && p.size()==2) { if(!vh::unhex(p[1],o.k)) return "bad-op"; mentioned.insert(o.k); }
-		else if((o.name=="age"||o.name=="how"||o.name=="srv") && p.size()==2) o.n=strtol(p[1].c_str(),0,10);
-		else if((o.name=="clear"||o.name=="defage"||o.name=="defhow"||o.name=="reset") && p.size()==1) ;
-		else return "bad-op";
-		ops.push_back(o);
-	}
-	adapter a;
-	a.presented=presented;
+	if(two && w[slash+1]!="jar") j.cookie=presented2;
+	std::vector<set_cookie_call> out;
+	adapter a,a2;
+	a.shared=&out; a2.shared=&out;
+	a.presented=presented; a2.presented=presented2;
 	for(std::map<std::string,std::string>::const_iterator p=j.exposed.begin();p!=j.exposed.end();++p) a.names.insert(prefix+"_"+p->first);
+	a2.names=a.names;
 	calls.clear();
-	std::string p_str=canon_tok(issued,presented);
-	std::string reads,saved;
+	std::string p_str=canon_tok(issued,presented),p2_str=canon_tok(issued,presented2);
+	std::string reads,reads1,saved;
 	{
 		session_interface s(*pool,a);
 		bool loaded=false;
 		try {
 			s.load();
-			loaded=true;
-			std::set<std::string> keys=s.key_set();
-			keys.insert(mentioned.begin(),mentioned.end());
-			keys.insert("_t"); keys.insert("_h"); keys.insert("_s");
-			std::vector<std::string> ents;
-			for(std::set<std::string>::const_iterator k=keys.begin();k!=keys.end();++k) {
-				if(!s.is_set(*k)) continue;
-				ents.push_back(vh::hex(*k)+"="+adler_abbr(s.get(*k))+":"+(s.is_exposed(*k)?"1":"0"));
+			reads=read_state(s);
+			if(two) {
+				reads1=reads;
+				apply_ops(s,ops);
+				s.set_cookie_adapter_and_reload(a2);
+				reads=read_state(s);
 			}
-			reads=std::to_string(s.age())+","+std::to_string(s.expiration())+","+(s.on_server()?"1":"0")+","+join(ents);
+			loaded=true;
 		}
-		catch(std::exception const &e) { reads="err:"+err_kind(e); }
+		catch(std::exception const &e) { reads="err:"+err_kind(e); if(two && reads1.empty()) reads1=reads; }
 		if(!loaded) saved=reads;
 		else {
 			try {
-				for(size_t i=0;i<ops.size();i++) {
-					op const &o=ops[i];
-					if(o.name=="set") s.set(o.k,o.v);
-					else if(o.name=="erase") s.erase(o.k);
-					else if(o.name=="clear") s.clear();
-					else if(o.name=="expose") s.expose(o.k);
-					else if(o.name=="hide") s.hide(o.k);
-					else if(o.name=="age") s.age(int(o.n));
-					else if(o.name=="defage") s.default_age();
-					else if(o.name=="how") s.expiration(int(o.n));
-					else if(o.name=="defhow") s.default_expiration();
-					else if(o.name=="srv") s.on_server(o.n!=0);
-					else if(o.name=="reset") s.reset_session();
-				}
+				apply_ops(s,two ? ops2 : ops);
 				s.save();
 				saved="ok";
 			}
@@ -386,8 +443,8 @@ static std::string do_req(std::vector<std::string> const &w)
 	}
 	// the browser applies the Set-Cookie calls in order
 	std::vector<std::string> cs;
-	for(size_t i=0;i<a.out.size();i++) {
-		set_cookie_call const &c=a.out[i];
+	for(size_t i=0;i<out.size();i++) {
+		set_cookie_call const &c=out[i];
 		if(c.is_session) {
 			if(!c.value.empty() && std::find(issued.begin(),issued.end(),c.value)==issued.end()) issued.push_back(c.value);
 			if(c.del) j.cookie.clear(); else j.cookie=c.value;
@@ -396,8 +453,8 @@ static std::string do_req(std::vector<std::string> const &w)
 			if(c.del) j.exposed.erase(c.key); else j.exposed[c.key]=c.value;
 		}
 	}
-	for(size_t i=0;i<a.out.size();i++) {
-		set_cookie_call const &c=a.out[i];
+	for(size_t i=0;i<out.size();i++) {
+		set_cookie_call const &c=out[i];
 		if(c.is_session) cs.push_back("@="+canon_tok(issued,c.value)+":"+c.age);
 		else cs.push_back(vh::hex(c.key)+"="+adler_abbr(c.value)+":"+c.age);
 	}
@@ -406,14 +463,15 @@ static std::string do_req(std::vector<std::string> const &w)
 	std::vector<std::string> lg;
 	for(size_t i=0;i<calls.size();i++) lg.push_back(std::string(1,calls[i].first)+canon_key(calls[i].second));
 	std::string listing = factory ? store_listing() : "[]";
-	return "P "+p_str+" R "+reads+" S "+saved+" C "+join(cs)+" J "+canon_tok(issued,j.cookie)+","+join(je)+" T "+listing+" A "+join(lg);
+	std::string head = two ? "P1 "+p_str+" R1 "+reads1+" P "+p2_str : "P "+p_str;
+	return head+" R "+reads+" S "+saved+" C "+join(cs)+" J "+canon_tok(issued,j.cookie)+","+join(je)+" T "+listing+" A "+join(lg);
 }
 
 static std::string run(std::vector<std::string> const &w)
 {
 	if(w.empty()) return "bad-op";
 	if(w[0]=="new") return do_new(w);
-	if(w[0]=="req") return do_req(w);
+	if(w[0]=="req" || w[0]=="req2") return do_req(w);
 	if(w[0]=="gc" && w.size()==2) {
 		if(!pool.get()) return "bad-op";
 		virtual_now=strtoll(w[1].c_str(),0,10);
@@ -427,7 +485,7 @@ int main(int argc,char **argv)
 {
 	if(argc>1) base_dir=argv[1];
 	int r=vh::drive(run);
-	pool.reset(); tcp_svc.reset(); tcp_backend.reset();
+	pool.reset(); tcp_svcs.clear(); tcp_backends.clear();
 	if(!files_dir.empty()) rm_dir(files_dir);
 	return r;
 }
